@@ -1,6 +1,7 @@
 package types
 
 import (
+	"encoding/json"
 	"errors"
 	"fmt"
 	"math/big"
@@ -119,7 +120,7 @@ func (u *Uint) UnmarshalAmino(text string) error {
 	if u.i == nil { // Necessary since default Uint initialization has i.i as nil
 		u.i = new(big.Int)
 	}
-	return unmarshalAmino(u.i, text)
+	return unmarshalUintText(u.i, text)
 }
 
 // MarshalJSON defines custom encoding scheme
@@ -135,7 +136,19 @@ func (u *Uint) UnmarshalJSON(bz []byte) error {
 	if u.i == nil { // Necessary since default Uint initialization has i.i as nil
 		u.i = new(big.Int)
 	}
-	return unmarshalJSON(u.i, bz)
+	var text string
+	if err := json.Unmarshal(bz, &text); err != nil {
+		return err
+	}
+	return unmarshalUintText(u.i, text)
+}
+
+// unmarshalUintText decodes the decimal text of a Uint, refusing anything outside the Uint range
+func unmarshalUintText(i *big.Int, text string) error {
+	if err := i.UnmarshalText([]byte(text)); err != nil {
+		return err
+	}
+	return UintOverflow(i)
 }
 
 //__________________________________________________________________________
